@@ -29,6 +29,13 @@
      at a pruned version, and when a snapshot of a pruned version is open. iavl has no such
      refusals; its documentation makes the caller responsible, so for iavl these calls are
      not generated.
+   * iavl deletes versions lazily: the root node of a deleted version survives while a retained
+     version shares it, so GetImmutable of a deleted version may still succeed, and after a
+     restart (first version rediscovered by probing root keys) such a version is listed and loadable
+     again, intact. Its documentation only promises snapshots "provided the version is not
+     deleted". LoadVersion / GetImmutable / GetVersioned naming a deleted version are not generated
+     for iavl and the driver does not compare VersionExists / AvailableVersions below the first
+     retained version. iavl.AvailableVersions reports [0] for a DB without versions; 0 is dropped.
    * SaveVersion on an existing version with EQUAL contents but a different history: the
      outcome depends on the tree shape; generated only where the shape is a function of the
      contents (bptree with all keys in one node: SmallTree) or the history key is the same.
@@ -65,10 +72,11 @@ VARIABLES work,      \* [Keys -> 0..NV] the working tree
           pend,      \* ghost: hash-relevant writes since ver
           shk,       \* ghost: [Vers -> history key the version was saved from]
           n, hist,
-          fam, pc, gap, gapmax, spend   \* script mode
+          fam, pc, gap, gapmax, spend, script,  \* script mode (script = Scripts[fam], read once: the constant is re-read from its file at every reference)
+          kinds                         \* simulation: the kinds of action tried in this step
 
 svars == <<work, saved, exists, first, latest, ver, dirty, poisoned, readers, opt, pend, shk>>
-scvars == <<fam, pc, gap, gapmax, spend>>
+scvars == <<fam, pc, gap, gapmax, spend, script>>
 vars == <<svars, n>>
 View == <<work, saved, exists, first, latest, ver, dirty, poisoned, readers, n>>
 
@@ -81,22 +89,23 @@ Rank(m, k) == Cardinality({j \in Present(m) : j < k})     \* keys below k = inde
 GetR(m, k) == m[k]
 HasR(m, k) == m[k] # 0
 WithIndexR(m, k) == [idx |-> Rank(m, k), v |-> m[k]]
-ByIndexR(m, i) == IF i < 0 \/ i >= SizeR(m) THEN [k |-> 0, v |-> 0]
-                  ELSE LET k == CHOOSE x \in Present(m) : Rank(m, x) = i IN [k |-> k, v |-> m[k]]
 KeySeq == [k \in Keys |-> k]
-Rev(sq) == [i \in 1..Len(sq) |-> sq[Len(sq) + 1 - i]]
+PresentSeq(m) == SelectSeq(KeySeq, LAMBDA k : m[k] # 0)      \* the keys of m in order
+ByIndexR(m, i) == LET ps == PresentSeq(m) IN
+                  IF i < 0 \/ i >= Len(ps) THEN [k |-> 0, v |-> 0] ELSE [k |-> ps[i + 1], v |-> m[ps[i + 1]]]
 \* bounds: 0 = nil (unbounded), k = the key k; start inclusive, end exclusive
-RangeKeys(m, s, e) == LET In(k) == m[k] # 0 /\ (s = 0 \/ k >= s) /\ (e = 0 \/ k < e) IN SelectSeq(KeySeq, In)
-RangeR(m, s, e, asc) == LET ks == IF asc THEN RangeKeys(m, s, e) ELSE Rev(RangeKeys(m, s, e))
-                        IN [i \in 1..Len(ks) |-> <<ks[i], m[ks[i]]>>]
+PairsUp(m) == [j \in Keys |-> <<j, m[j]>>]
+PairsDown(m) == [j \in Keys |-> <<NK + 1 - j, m[NK + 1 - j]>>]
+RangeR(m, s, e, asc) == SelectSeq(IF asc THEN PairsUp(m) ELSE PairsDown(m),
+                                  LAMBDA p : p[2] # 0 /\ (s = 0 \/ p[1] >= s) /\ (e = 0 \/ p[1] < e))
 
 SavedOf(v) == IF v = 0 THEN EmptyMap ELSE saved[v]
 SortedVers(S) == SelectSeq([v \in Vers |-> v], LAMBDA v : v \in S)
 
 \* ------------------------------------------------------------------ projection and log
-St == [ver |-> ver, avail |-> SortedVers(exists), w |-> work, poisoned |-> poisoned,
+St == [ver |-> ver, avail |-> SortedVers(exists), w |-> work, poisoned |-> poisoned, dirty |-> dirty,
        wk |-> <<ver, pend>>, opt |-> opt]
-VerActs == {"Init", "SaveVersion", "Rollback", "LoadVersion", "Reopen", "Prune", "Migrate"}
+VerActs == {"Init", "SaveVersion", "Rollback", "LoadVersion", "Reopen", "Prune", "Migrate", "Finish"}
 Log(r) == /\ n' = n + 1
           /\ hist' = IF Quiet THEN hist
                      ELSE Append(hist, r @@ [st |-> St']
@@ -107,8 +116,9 @@ Init ==
   /\ ver = 0 /\ dirty = FALSE /\ poisoned = FALSE /\ readers = [r \in Rdrs |-> 0]
   /\ opt \in Opts /\ pend = <<>> /\ shk = [v \in Vers |-> NoHk]
   /\ n = 1
-  /\ fam \in (IF Scripts = <<>> THEN {0} ELSE 1..Len(Scripts))
-  /\ pc = 1 /\ gap = 0 /\ gapmax = 2 /\ spend = <<>>
+  /\ \E sc \in {Scripts} : /\ fam \in (IF sc = <<>> THEN {0} ELSE 1..Len(sc))
+                           /\ script = (IF sc = <<>> THEN <<>> ELSE sc[fam])
+  /\ pc = 1 /\ gap = 0 /\ gapmax = 2 /\ spend = <<>> /\ kinds = {1, 2, 30}
   /\ hist = IF Quiet THEN <<>>
             ELSE << [act |-> "Init", reply |-> "ok", fam |-> fam, st |-> St, sv |-> saved] >>
 
@@ -145,35 +155,34 @@ Remove(k) ==
 
 \* macro actions: the driver issues one Set / Remove per key, in the given direction
 ValOf(k, salt) == ((k + salt) % NV) + 1
-Span(from, cnt) == from..(IF from + cnt - 1 > NK THEN NK ELSE from + cnt - 1)
+\* (TLC re-evaluates LET definitions at every use: membership is written as arithmetic, not as a set)
+InSpan(k, from, cnt) == k >= from /\ k < from + cnt
 Fill(from, cnt, salt, asc) ==
   /\ n < MaxLen /\ ~Refused
-  /\ LET S == Span(from, cnt) IN
-     /\ work' = [k \in Keys |-> IF k \in S THEN ValOf(k, salt) ELSE work[k]]
-     /\ dirty' = TRUE
-     /\ pend' = Append(pend, <<"f", from, cnt, salt, asc>>)
-     /\ UNCHANGED <<saved, exists, first, latest, ver, poisoned, readers, opt, shk>>
-     /\ Log([act |-> "Fill", from |-> from, cnt |-> cnt, salt |-> salt, asc |-> asc,
-             reply |-> Cardinality({k \in S : work[k] # 0})])
+  /\ work' = [k \in Keys |-> IF InSpan(k, from, cnt) THEN ValOf(k, salt) ELSE work[k]]
+  /\ dirty' = TRUE
+  /\ pend' = Append(pend, <<"f", from, cnt, salt, asc>>)
+  /\ UNCHANGED <<saved, exists, first, latest, ver, poisoned, readers, opt, shk>>
+  /\ Log([act |-> "Fill", from |-> from, cnt |-> cnt, salt |-> salt, asc |-> asc,
+          reply |-> Cardinality({k \in Keys : InSpan(k, from, cnt) /\ work[k] # 0})])
 \* every stride-th key from off: scattered inserts
+InSparse(k, off, stride) == k >= off /\ (k - off) % stride = 0
 Sparse(off, stride, salt) ==
   /\ n < MaxLen /\ ~Refused
-  /\ LET S == {k \in Keys : k >= off /\ (k - off) % stride = 0} IN
-     /\ work' = [k \in Keys |-> IF k \in S THEN ValOf(k, salt) ELSE work[k]]
-     /\ dirty' = TRUE
-     /\ pend' = Append(pend, <<"p", off, stride, salt>>)
-     /\ UNCHANGED <<saved, exists, first, latest, ver, poisoned, readers, opt, shk>>
-     /\ Log([act |-> "Sparse", off |-> off, stride |-> stride, salt |-> salt,
-             reply |-> Cardinality({k \in S : work[k] # 0})])
+  /\ work' = [k \in Keys |-> IF InSparse(k, off, stride) THEN ValOf(k, salt) ELSE work[k]]
+  /\ dirty' = TRUE
+  /\ pend' = Append(pend, <<"p", off, stride, salt>>)
+  /\ UNCHANGED <<saved, exists, first, latest, ver, poisoned, readers, opt, shk>>
+  /\ Log([act |-> "Sparse", off |-> off, stride |-> stride, salt |-> salt,
+          reply |-> Cardinality({k \in Keys : InSparse(k, off, stride) /\ work[k] # 0})])
 RemoveRange(from, cnt, asc) ==
   /\ n < MaxLen /\ ~Refused
-  /\ LET S == Span(from, cnt)
-         hit == {k \in S : work[k] # 0} IN
-     /\ work' = [k \in Keys |-> IF k \in S THEN 0 ELSE work[k]]
-     /\ dirty' = (dirty \/ hit # {})
-     /\ pend' = IF hit = {} THEN pend ELSE Append(pend, <<"x", from, cnt, asc>>)
-     /\ UNCHANGED <<saved, exists, first, latest, ver, poisoned, readers, opt, shk>>
-     /\ Log([act |-> "RemoveRange", from |-> from, cnt |-> cnt, asc |-> asc, reply |-> Cardinality(hit)])
+  /\ work' = [k \in Keys |-> IF InSpan(k, from, cnt) THEN 0 ELSE work[k]]
+  /\ dirty' = (dirty \/ work' # work)
+  /\ pend' = IF work' = work THEN pend ELSE Append(pend, <<"x", from, cnt, asc>>)
+  /\ UNCHANGED <<saved, exists, first, latest, ver, poisoned, readers, opt, shk>>
+  /\ Log([act |-> "RemoveRange", from |-> from, cnt |-> cnt, asc |-> asc,
+          reply |-> Cardinality({k \in Keys : InSpan(k, from, cnt) /\ work[k] # 0})])
 
 \* ------------------------------------------------------------------ versions
 SaveVersion ==
@@ -210,8 +219,9 @@ Rollback ==
   /\ Log([act |-> "Rollback", reply |-> "ok"])
 
 \* v = 0: the latest version
+Undeleted(v) == Bptree \/ v = 0 \/ v \in exists \/ v > latest   \* iavl: calls naming a deleted version are not generated
 LoadVersion(v) ==
-  /\ n < MaxLen
+  /\ n < MaxLen /\ Undeleted(v)
   /\ LET t == IF v = 0 THEN latest ELSE v IN
      IF t = 0
      THEN UNCHANGED svars /\ Log([act |-> "LoadVersion", v |-> v, reply |-> "ok", ret |-> 0])
@@ -257,6 +267,7 @@ Prune(to) ==
 
 GetImmutable(r, v) ==
   /\ n < MaxLen /\ readers[r] = 0
+  /\ Undeleted(v)
   /\ IF v \in exists
      THEN /\ readers' = [readers EXCEPT ![r] = v]
           /\ UNCHANGED <<work, saved, exists, first, latest, ver, dirty, poisoned, opt, pend, shk>>
@@ -296,7 +307,7 @@ Iter(t, s, e, asc) == n < MaxLen /\ LogR([act |-> "Iter", t |-> t, s |-> s, e |-
                                           reply |-> RangeR(MapOf(t), s, e, asc)])
 Size(t) == n < MaxLen /\ LogR([act |-> "Size", t |-> t, reply |-> SizeR(MapOf(t))])
 \* versioned point read: nil for a missing version
-GetVersioned(k, v) == n < MaxLen /\ LogR([act |-> "GetVersioned", k |-> k, v |-> v,
+GetVersioned(k, v) == n < MaxLen /\ Undeleted(v) /\ LogR([act |-> "GetVersioned", k |-> k, v |-> v,
                                           reply |-> IF v \in exists THEN saved[v][k] ELSE 0])
 
 ReadNext ==
@@ -331,45 +342,52 @@ NextReads ==
 \* ------------------------------------------------------------------ simulation (several hundred keys)
 \* arguments drawn with RandomElement; the reference to n keeps TLC from folding the set into a constant
 RE(S) == RandomElement({x \in S : n >= 0})
-SimWrites ==
-  \/ \E f \in {RE(Keys)}, c \in {RE(FillSizes)}, s \in {RE(0..5)}, a \in {RE(BOOLEAN)} : Fill(f, c, s, a)
-  \/ \E f \in {RE(1..(NK \div 4 + 1))}, c \in {RE(FillSizes)}, s \in {RE(0..5)}, a \in {RE(BOOLEAN)} : Fill(f, c, s, a)
-  \/ \E o \in {RE(1..7)}, d \in {RE({2, 3, 5, 7})}, s \in {RE(0..5)} : Sparse(o, d, s)
-  \/ \E f \in {RE(Keys)}, c \in {RE(FillSizes)}, a \in {RE(BOOLEAN)} : RemoveRange(f, c, a)
-  \/ \E f \in {RE(Keys)}, c \in {RE(FillSizes)}, a \in {RE(BOOLEAN)} : RemoveRange(f, c, a)
-  \/ \E k \in {RE(Keys)}, v \in {RE(Vals)} : Set(k, v)
-  \/ \E k \in {RE(Keys)} : Remove(k)
-SimReads ==
-  \E t \in {RE(Targets \cup {0})} : t \in Targets /\
-     \/ \E k \in {RE(Keys)} : Get(t, k) \/ Has(t, k) \/ WithIndex(t, k)
-     \/ \E i \in {RE((0 - 1)..NK)} : ByIndex(t, i)
-     \/ \E i \in {RE({0, SizeR(MapOf(t)) - 1, SizeR(MapOf(t))})} : ByIndex(t, i)
-     \/ \E s \in {RE(0..NK)}, e \in {RE(0..NK)}, asc \in {RE(BOOLEAN)} : Iter(t, s, e, asc)
-     \/ \E s \in {RE(Keys)}, w \in {RE(0..40)}, asc \in {RE(BOOLEAN)} : Iter(t, s, IF s + w > NK THEN 0 ELSE s + w, asc)
-NextSim ==
-  \/ SimWrites \/ SimWrites
-  \/ SaveVersion \/ SaveVersion \/ SaveVersion
-  \/ Rollback
-  \/ \E v \in {RE(0..(MaxVer + 1))} : LoadVersion(v)
-  \/ \E v \in {RE(exists \cup {0})} : LoadVersion(v)
-  \/ \E o \in {RE(Opts)} : Reopen(o)
-  \/ \E to \in {RE(Vers)} : Prune(to)
-  \/ \E to \in {RE({v \in Vers : v < latest} \cup {1})} : Prune(to)
-  \/ \E r \in {RE(Rdrs)}, v \in {RE(Vers)} : GetImmutable(r, v)
-  \/ \E r \in {RE(Rdrs)}, v \in {RE(exists \cup {1})} : GetImmutable(r, v)
-  \/ \E r \in {RE(Rdrs)} : CloseReader(r)
-  \/ SimReads \/ SimReads
-  \/ \E k \in {RE(Keys)}, v \in {RE(0..(MaxVer + 1))} : GetVersioned(k, v)
-  \/ \E v \in {RE(exists \cup {1})} : ExportImport(v)
+SimWrite(j) ==
+  CASE j = 1 -> \E f \in {RE(Keys)}, c \in {RE(FillSizes)}, s \in {RE(0..5)}, a \in {RE(BOOLEAN)} : Fill(f, c, s, a)
+    [] j = 2 -> \E f \in {RE(1..(NK \div 4 + 1))}, c \in {RE(FillSizes)}, s \in {RE(0..5)}, a \in {RE(BOOLEAN)} : Fill(f, c, s, a)
+    [] j = 3 -> \E o \in {RE(1..7)}, d \in {RE({2, 3, 5, 7})}, s \in {RE(0..5)} : Sparse(o, d, s)
+    [] j \in 4..5 -> \E f \in {RE(Keys)}, c \in {RE(FillSizes)}, a \in {RE(BOOLEAN)} : RemoveRange(f, c, a)
+    [] j = 6 -> \E k \in {RE(Keys)}, v \in {RE(Vals)} : Set(k, v)
+    [] j = 7 -> \E k \in {RE(Keys)} : Remove(k)
+SimWrites == \E j \in {RE(1..7)} : SimWrite(j)
+SimRead(t, j) ==
+  CASE j = 1 -> \E k \in {RE(Keys)} : Get(t, k)
+    [] j = 2 -> \E k \in {RE(Keys)} : Has(t, k)
+    [] j = 3 -> \E k \in {RE(Keys)} : WithIndex(t, k)
+    [] j = 4 -> \E i \in {RE((0 - 1)..NK)} : ByIndex(t, i)
+    [] j = 5 -> \E i \in {RE({0, SizeR(MapOf(t)) - 1, SizeR(MapOf(t))})} : ByIndex(t, i)
+    [] j = 6 -> \E s \in {RE(0..NK)}, e \in {RE(0..NK)}, asc \in {RE(BOOLEAN)} : Iter(t, s, e, asc)
+    [] j \in 7..8 -> \E s \in {RE(Keys)}, w \in {RE(0..40)}, asc \in {RE(BOOLEAN)} : Iter(t, s, IF s + w > NK THEN 0 ELSE s + w, asc)
+    [] j = 9 -> Size(t)
+SimReads == \E t \in {RE(Targets \cup {0})}, j \in {RE(1..9)} : t \in Targets /\ SimRead(t, j)
+\* TLC computes every successor before it picks one; with several hundred keys that is the whole cost of
+\* a behaviour. So the kinds of action tried in a step are drawn in the previous step (variable kinds):
+\* four random kinds plus a single-key Set (always enabled), instead of all of them.
+NKinds == 30
+KindAct(j) ==
+  CASE j \in 1..6 -> SimWrites
+    [] j \in 7..10 -> SaveVersion
+    [] j = 11 -> Rollback
+    [] j = 12 -> \E v \in {RE(0..(MaxVer + 1))} : LoadVersion(v)
+    [] j = 13 -> \E v \in {RE(exists \cup {0})} : LoadVersion(v)
+    [] j = 14 -> \E o \in {RE(Opts)} : Reopen(o)
+    [] j = 15 -> \E to \in {RE({v \in Vers : v < latest /\ v < ver} \cup {1})} : Prune(to)
+    [] j = 16 -> \E to \in {RE(Vers)} : Prune(to)
+    [] j \in 17..18 -> \E to \in {RE({v \in Vers : v < latest} \cup {1})} : Prune(to)
+    [] j = 19 -> \E r \in {RE(Rdrs)}, v \in {RE(Vers)} : GetImmutable(r, v)
+    [] j \in 20..21 -> \E r \in {RE(Rdrs)}, v \in {RE(exists \cup {1})} : GetImmutable(r, v)
+    [] j = 22 -> \E r \in {RE(Rdrs)} : CloseReader(r)
+    [] j \in 23..27 -> SimReads
+    [] j = 28 -> \E k \in {RE(Keys)}, v \in {RE(0..(MaxVer + 1))} : GetVersioned(k, v)
+    [] j = 29 -> \E v \in {RE(exists \cup {1})} : ExportImport(v)
+    [] j = 30 -> \E k \in {RE(Keys)}, v \in {RE(Vals)} : Set(k, v)
+NextSim == (\E j \in kinds : KindAct(j)) /\ kinds' = {RE(1..NKinds), RE(1..NKinds), RE(1..NKinds), RE(1..NKinds), 30}
 
 \* skeleton generator (C24): hash-relevant calls only
-NextSkel ==
-  \/ SimWrites \/ SimWrites
-  \/ (dirty /\ SaveVersion)
-  \/ (dirty /\ SaveVersion)
+NextSkel == \E j \in {RE(1..3)} : IF j = 1 /\ dirty THEN SaveVersion ELSE SimWrites
 
 \* ------------------------------------------------------------------ script mode (C24)
-S == Scripts[fam]
+S == script
 Done == pc > Len(S)
 \* the working tree is exactly where the script left it
 InStep == ver = latest /\ ~poisoned /\ pend = spend
@@ -382,38 +400,53 @@ Scripted ==
           [] s.act = "Sparse" -> Sparse(s.off, s.stride, s.salt)
           [] s.act = "RemoveRange" -> RemoveRange(s.from, s.cnt, s.asc)
           [] s.act = "SaveVersion" -> SaveVersion
-     /\ pc' = pc + 1 /\ gap' = 0 /\ gapmax' = RE({0, 0, 1, 1, 2, 3})
+     /\ pc' = pc + 1 /\ gap' = 0 /\ gapmax' = (IF s.act = "SaveVersion" THEN RE(0..4) ELSE (LET x == RE(0..7) IN IF x <= 5 THEN 0 ELSE x - 5))
      /\ spend' = pend'
-     /\ fam' = fam
+     /\ UNCHANGED <<fam, script>>
 Budget == gap < gapmax
-NeutralStep(A) == A /\ gap' = gap + 1 /\ UNCHANGED <<fam, pc, gapmax, spend>>
+NeutralStep(A) == A /\ gap' = gap + 1 /\ UNCHANGED <<fam, pc, gapmax, spend, script>>
 \* a session the script does not know about: must be rolled back before the script goes on
 Scratch == spend = <<>> /\ ~poisoned /\
            \/ \E k \in {RE(Keys)}, v \in {RE(Vals)} : Set(k, v)
            \/ \E k \in {RE(Keys)} : Remove(k)
            \/ \E f \in {RE(Keys)}, c \in {RE(FillSizes)}, a \in {RE(BOOLEAN)} : RemoveRange(f, c, a)
            \/ \E f \in {RE(Keys)}, c \in {RE(FillSizes)}, s \in {RE(0..5)}, a \in {RE(BOOLEAN)} : Fill(f, c, s, a)
-Neutral ==
-  \/ (Budget /\ \E to \in {RE({v \in Vers : v < latest} \cup {1})} : Prune(to))
-  \/ (Budget /\ \E r \in {RE(Rdrs)}, v \in {RE(exists \cup {1})} : GetImmutable(r, v))
-  \/ (Budget /\ \E r \in {RE(Rdrs)} : CloseReader(r))
-  \/ (Budget /\ SimReads)
-  \/ (Budget /\ \E v \in {RE(exists \cup {1})} : ExportImport(v))
-  \/ (Budget /\ Scratch)
-  \* session-dropping calls: only when the script has nothing pending
-  \/ ((Budget \/ ~InStep) /\ spend = <<>> /\ \E o \in {RE(Opts)} : Reopen(o))
-  \/ ((Budget \/ (~InStep /\ ver = latest)) /\ spend = <<>> /\ Rollback)
-  \/ ((Budget \/ ~InStep) /\ spend = <<>> /\ LoadVersion(0))
-  \/ (Budget /\ spend = <<>> /\ \E v \in {RE(exists \cup {0})} : LoadVersion(v))
-  \/ (Budget /\ spend = <<>> /\ InStep /\ \E o \in {RE(Opts)} : Migrate(o))
-NextScript == Scripted \/ NeutralStep(Neutral)
+\* (as in NextSim, the neutral kinds tried in a step are drawn in the previous step)
+NeutralKind(j) ==
+  CASE j = 1 -> Budget /\ \E to \in {RE({v \in Vers : v < latest} \cup {1})} : Prune(to)
+    [] j \in 2..5 -> Budget /\ ~dirty /\ \E to \in {RE({v \in Vers : v < latest /\ v < ver /\ \A r \in Rdrs : readers[r] = 0 \/ v < readers[r]} \cup {1})} : Prune(to)
+    [] j \in 6..7 -> Budget /\ \E r \in {RE(Rdrs)}, v \in {RE(exists \cup {1})} : GetImmutable(r, v)
+    [] j \in 8..9 -> Budget /\ \E r \in {RE(Rdrs)} : CloseReader(r)
+    [] j \in 10..11 -> Budget /\ SimReads
+    [] j \in 12..13 -> Budget /\ \E v \in {RE(exists \cup {1})} : ExportImport(v)
+    [] j \in 14..15 -> Budget /\ Scratch
+    \* session-dropping calls: only when the script has nothing pending
+    [] j \in 16..17 -> Budget /\ spend = <<>> /\ \E v \in {RE(exists \cup {0})} : LoadVersion(v)
+    [] j \in 18..19 -> Budget /\ spend = <<>> /\ InStep /\ \E o \in {RE(Opts)} : Migrate(o)
+    \* ... these three also bring a scratch session / a load of an old version back to where the script goes on
+    [] j \in 20..22 -> (Budget \/ ~InStep) /\ spend = <<>> /\ \E o \in {RE(Opts)} : Reopen(o)
+    [] j = 23 -> (Budget \/ (~InStep /\ ver = latest)) /\ spend = <<>> /\ Rollback
+    [] j = 24 -> (Budget \/ ~InStep) /\ spend = <<>> /\ LoadVersion(0)
+    [] OTHER -> FALSE
+Neutral == \E j \in (kinds \cup (IF InStep THEN {} ELSE {20, 23, 24})) : NeutralKind(j)
+ScriptEnd == Done /\ ~Budget /\ InStep
+\* the last step is unique (see Finish): gapmax = -1 marks the end
+FinishS == /\ UNCHANGED svars /\ Log([act |-> "Finish", reply |-> "ok"])
+           /\ gapmax' = 0 - 1 /\ UNCHANGED <<fam, pc, gap, spend, script, kinds>>
+NextScript == /\ gapmax >= 0
+              /\ IF ScriptEnd THEN FinishS
+                 ELSE /\ Scripted \/ NeutralStep(Neutral)
+                      /\ kinds' = {RE(1..24), RE(1..24), RE(1..24)}
 
 \* the free modes leave the script variables alone
-NextF == Next /\ UNCHANGED scvars
-NextReadsF == NextReads /\ UNCHANGED scvars
-NextSimF == NextSim /\ UNCHANGED scvars
-NextSkelF == NextSkel /\ UNCHANGED scvars
-Spec == Init /\ [][NextF]_<<vars, hist, scvars>>
+NextF == Next /\ UNCHANGED <<scvars, kinds>>
+NextReadsF == NextReads /\ UNCHANGED <<scvars, kinds>>
+\* simulation: TLC evaluates the invariants on every successor before it picks one, so the last step is
+\* made unique (Finish) and a behaviour is emitted exactly once
+Finish == n = MaxLen - 1 /\ UNCHANGED svars /\ Log([act |-> "Finish", reply |-> "ok"])
+NextSimF == (IF n < MaxLen - 1 THEN NextSim ELSE (Finish /\ UNCHANGED kinds)) /\ UNCHANGED scvars
+NextSkelF == (IF n < MaxLen - 1 THEN NextSkel ELSE Finish) /\ UNCHANGED <<scvars, kinds>>
+Spec == Init /\ [][NextF]_<<vars, hist, scvars, kinds>>
 
 \* ---------------------------------------------------------------- properties (C23)
 TypeOK == /\ work \in [Keys -> 0..NV]
@@ -441,8 +474,7 @@ HkFunctional == \A v \in exists : (shk[v] = <<ver, pend>>) => saved[v] = work
 Emit == PrintT(<<"TRACE", ToJson(hist)>>)
 EmitAtEnd == n < MaxLen \/ Emit
 EmitEdge == PrintT(<<"EDGE", ToJson(hist')>>)
-\* script mode: emit when the script is finished and the trailing neutral budget is used up
-ScriptEnd == Done /\ ~Budget /\ InStep
-EmitScript == ~ScriptEnd \/ PrintT(<<"TRACE", ToJson(hist)>>)
-NextScriptStop == ~ScriptEnd /\ NextScript
+\* script mode: emitted once, at the Finish record
+EmitScript == gapmax >= 0 \/ PrintT(<<"TRACE", ToJson(hist)>>)
+NextScriptStop == NextScript
 =============================================================================
